@@ -21,7 +21,7 @@ VERIF = Path(__file__).resolve().parent.parent
 REPO = Path(os.environ.get("VERIF_REPO", "/repo")).resolve()
 SPEC = VERIF / "spec"
 OUT = VERIF / "out"
-EVID = VERIF / "evidence"
+EVID = VERIF / "evidence" if str(REPO) == "/repo" else OUT / "evidence-other-tree"
 JAVA_CP = "/opt/veriftools/tla/tla2tools.jar:/opt/veriftools/tla/CommunityModules-deps.jar"
 NCPU = os.cpu_count() or 4
 GUARD = "EUDOXIA_VERIF"
@@ -354,8 +354,9 @@ class Report:
             "coverage": cov, "assumptions": self.assumptions, "wall_s": round(time.time() - self.t0, 2),
             "violations": len(new),
             "known_findings_seen": {k: n for k, (_, n) in kf.items()},
+            "repo": str(REPO),
         }
-        EVID.mkdir(exist_ok=True)
+        EVID.mkdir(parents=True, exist_ok=True)
         (EVID / f"{self.prop}.json").write_text(json.dumps(ev, indent=1, default=str) + "\n")
         print(f"{self.prop} [{self.tier}] states={self.states} transitions={self.transitions} traces={self.traces} "
               f"evaluations={self.evaluations} nontrivial={self.nontrivial} violations={len(new)} "
